@@ -34,7 +34,8 @@ def gen_case(rng):
     return {'kind': 'initorder', 'names': rng.sample(NAMES, n), 'steps': rng.choice([0, 0, 1]),
             'values': [rng.randrange(1, 100) for _ in range(n)],
             'mode': rng.choice(['order', 'order', 'other-composite', 'dict-values', 'list-units', 'merge-path',
-                                'merge-path', 'parallel-config']),
+                                'merge-path', 'parallel-config', 'shared-ports', 'shared-ports']),
+            'ports': rng.sample(['inside', 'outside', 'extra'], rng.choice([2, 3])), 'swap': rng.random() < 0.5,
             'mass': rng.choice([3.0, 0.5, 7.0]),
             'n': rng.choice([1, 1, 2, 3]), 'second': rng.choice(['meter', 'gram', 'none']),
             'depth': rng.choice([1, 2, 3]), 'via': rng.choice(['state', 'composite']),
@@ -57,11 +58,19 @@ def corpus():
             # a state merged in together with a path belongs below that path
             {'kind': 'initorder', 'mode': 'merge-path', 'depth': 2, 'via': 'state', 'values': [10, 20]},
             {'kind': 'initorder', 'mode': 'merge-path', 'depth': 1, 'via': 'composite', 'values': [10, 20]},
+            # several ports of one process wired to one store: the initial values proposed through each of them
+            # are all part of the initial state, in whatever order the ports are listed
+            {'kind': 'initorder', 'mode': 'shared-ports', 'ports': ['inside', 'outside'], 'swap': False,
+             'values': [5, 100, 7]},
+            {'kind': 'initorder', 'mode': 'shared-ports', 'ports': ['outside', 'extra', 'inside'], 'swap': True,
+             'values': [5, 100, 7]},
             # a process wrapped for parallel execution is handed the same configuration as the plain one
             {'kind': 'initorder', 'mode': 'parallel-config', 'mass': 3.0}]
 
 
 def run_impl(case):
+    import warnings
+    warnings.simplefilter('ignore')
     from vivarium.core.process import Process, Step
     from vivarium.core.composer import Composite
     from vivarium.core.engine import Engine
@@ -139,6 +148,45 @@ def run_impl(case):
         except Exception as e:  # noqa
             obs['built'] = False
             obs['error'] = type(e).__name__
+        return obs
+    if case.get('mode') == 'shared-ports':
+        vals = dict(zip(['inside', 'outside', 'extra'], (case['values'] + [9, 8, 7])[:3]))
+        seen = []
+
+        class X(Process):
+            def ports_schema(self):
+                return {p: {'v_' + p: {'_default': 0, '_emit': True}} for p in case['ports']}
+
+            def initial_state(self, config=None):
+                return {p: {'v_' + p: vals[p]} for p in case['ports']}
+
+            def next_update(self, timestep, states):
+                return {p: {'v_' + p: 1} for p in case['ports']}
+
+        class C(Process):
+            def ports_schema(self):
+                return {'pool': dict({'v_' + p: {'_default': 0} for p in case['ports']}, n={'_default': 0})}
+
+            def initial_state(self, config=None):
+                return {'pool': {'n': 10}}
+
+            def next_update(self, timestep, states):
+                seen.append({k: v for k, v in states['pool'].items() if k != 'n'})
+                return {'pool': {'n': 1}}
+        try:
+            procs = {'x': X({}), 'c': C({})}
+            topo = {'x': {p: ('cell',) for p in case['ports']}, 'c': {'pool': ('cell',)}}
+            order = ['c', 'x'] if case['swap'] else ['x', 'c']
+            comp = Composite(processes={n: procs[n] for n in order}, topology={n: topo[n] for n in order})
+            ini = comp.initial_state()
+            obs['initial'] = ini
+            eng = Engine(composite=comp, initial_state=ini, emitter={'type': 'null'}, display_info=False,
+                         progress_bar=False)
+            obs['start'] = {k: v for k, v in eng.state.get_value()['cell'].items()}
+            eng.update(2)
+            obs['seen'] = seen
+        except Exception as e:  # noqa
+            obs['raised'] = f'{type(e).__name__}: {str(e)[:200]}'
         return obs
     if case.get('mode') == 'parallel-config':
         from vivarium.core.process import ParallelProcess
@@ -237,6 +285,17 @@ def oracle(case, impl):
             return [f'units-of-default: a variable declared with a default of {n} quantities in gram has units '
                     f'{impl["units"]}' + ('' if impl['value_ok'] else ' and another value than its default')]
         return []
+    if case.get('mode') == 'shared-ports':
+        vals = dict(zip(['inside', 'outside', 'extra'], (case['values'] + [9, 8, 7])[:3]))
+        want = dict({'v_' + p: vals[p] for p in case['ports']}, n=10)
+        fails = []
+        if impl['initial'] != {'cell': want} or impl['start'] != want:
+            fails.append(f'shared-ports: a process proposes {want} through its ports {case["ports"]}, all wired to one '
+                         f'store: Composite.initial_state() = {impl["initial"]}, the engine starts from {impl["start"]}')
+        shown = [{k: v + i for k, v in want.items() if k != 'n'} for i in range(2)]
+        if impl['seen'] != shown:
+            fails.append(f'shared-ports: the other process is shown {impl["seen"]}, the committed states are {shown}')
+        return fails
     if case.get('mode') == 'parallel-config':
         want = {'agents': {'a': {'cell': {'mass': case['mass'], 'volume': case['mass'] / 2.0}}}}
         if impl['serial'] != want or impl['parallel'] != want:
